@@ -70,7 +70,7 @@ def failing_op(rng, dv):
         return E.Op("rm", name, "", "missing-key")
     if k < 0.30:
         mp = rng.choice(E.MALFORMED_PATHS)
-        if rng.random() < 0.3 and mp and not mp.startswith("@"):
+        if rng.random() < 0.45 and mp and not mp.startswith("@"):
             # the same malformed remainder behind a scope selector
             mp = "@" * rng.choice([1, 1, 2]) + mp
         return E.Op(rng.choice(["set", "rm"]), mp, val, "malformed-path")
@@ -188,7 +188,15 @@ def run_shard(spec):
                 # that `longlive` accepted; successes (and their hidden state) are shared, rejections
                 # are not, so any divergence is what a rejected edit left behind
                 rl = longlive.apply(op)
-                if rl.exc_type is None:
+                if rl.exc_type is not None and not E.is_documented(rl):
+                    # an operation of another kind earlier in the history left something behind that
+                    # makes this one fail in an undocumented way
+                    k = dict(base)
+                    k.update({"effect": "undocumented-exception", "exc": rl.exc_type, "on": "long-lived-document",
+                              "msg": (rl.exc_msg or "").split(":")[0][:48]})
+                    keys.append(k)
+                    longlive = shadow = None
+                elif rl.exc_type is None:
                     rs = shadow.apply(op)
                     obs["shadow_steps"] = obs.get("shadow_steps", 0) + 1
                     if total_failures and semantic_digest(rs) != semantic_digest(rl):
@@ -276,6 +284,21 @@ def run_shard(spec):
                 except Exception:  # noqa: BLE001
                     break
                 failures_since_sync = 0
+                if op.kind == "set" and op.cls in ("fresh-in-attrpath", "fresh-deep", "fresh-in-explicit") \
+                        and not followups and rng.random() < 0.5:
+                    # an operation of another kind next to what was just written: remove the
+                    # binding that stands in front of the new one (the long-lived pair sees both)
+                    try:
+                        dvo = A.decode(r.out)
+                        _d, segs_n = M.parse_npath(op.npath)
+                        bl = dvo.target.bindings
+                        idx = next((i for i, b in enumerate(bl) if b.kind == "bind" and list(b.path) == list(segs_n)), None)
+                        if idx:
+                            prevb = bl[idx - 1]
+                            if prevb.kind == "bind":
+                                followups = [E.Op("rm", E.spell(tuple(prevb.path)), "", "followup-rm-before-new")]
+                    except Exception:  # noqa: BLE001
+                        followups = []
             for k in keys:
                 B.record(res, k, {"text": cur_text, "op": [op.kind, op.npath, op.value],
                                   "history": hist[:-1], "initial": text},
